@@ -712,6 +712,15 @@ func (r *trRun) frames() {
 		if _, extra := next(5 * time.Millisecond); extra {
 			r.violate(i, "frame", "a frame was delivered twice after case "+c.name, nil, nil)
 		}
+		// the same bytes sent again are another payload (heads are announced again, unchanged, whenever a peer joins)
+		if i%3 == 0 {
+			if err := sc.Send(ctx, recvHost.ID(), probe); err != nil {
+				r.violate(i, "frame", "second Send of the same payload failed: "+err.Error(), nil, nil)
+			} else if p, ok = next(5 * time.Second); !ok || !bytes.Equal(p.Payload, probe) {
+				r.violate(i, "frame", "a payload sent twice in a row was delivered once only: every payload sent is delivered", nil, nil)
+			}
+			r.res.Comparisons++
+		}
 		r.res.Steps++
 	}
 	// many malformed frames in a row (whatever a handler holds while it reads a frame must be given back when the
